@@ -147,7 +147,12 @@ def env_property(pid, tier, seed, only=None):
     if pid in ("C03", "C07", "C04") and not only:
         # the step-wise (dense) reward interfaces: DenseRewardTSPEnv, FJSP/JSSP stepwise_reward (DenseTSP.tla, FJSPStepwise.tla)
         from harness.props import c03b_dense
-        vb, cb = c03b_dense.violations(tier, seed, props=(pid,))
+        # C03 also owns the REWARD clauses of the scheduling environments (step reward, telescoping sum, terminal reward)
+        vb, cb = c03b_dense.violations(tier, seed, props=("C03", "C07") if pid == "C03" else (pid,))
+        if pid == "C03":
+            for v in vb:
+                if v["property"] == "C07" and any(w in v["monitor"] for w in ("step", "telescopes", "terminal", "reward")):
+                    v["property"] = "C03"
         roll_viol += [v for v in vb if v["property"] == pid]
         extra_states += cb["states"]
         extra_trans += cb["transitions"]
